@@ -110,21 +110,20 @@ func (p *FloatingIPPlugin) resyncAllocatedIPs(meta *resyncMeta) {
 				return
 			}
 			glog.Infof("%s is not running, %s", obj.keyObj.KeyInDB, reason)
-			if p.cloudProvider != nil && obj.fip.NodeName != "" {
-				// For tapp and sts pod, nodeName will be updated to empty after unassigning
-				glog.Infof("UnAssignIP nodeName %s, ip %s, key %s during resync", obj.fip.NodeName,
-					obj.fip.IP.String(), key)
-				if err := p.cloudProviderUnAssignIP(&rpc.UnAssignIPRequest{
-					NodeName:  obj.fip.NodeName,
-					IPAddress: obj.fip.IP.String(),
-				}); err != nil {
-					glog.Warningf("failed to unassign ip %s to %s: %v", obj.fip.IP.String(), key, err)
+			if p.cloudProvider != nil {
+				// All ips of the key are released or reserved below, so every one of them that is still assigned to
+				// a node has to be unassigned, not only the ip of this item
+				unassigned, err := p.unassignIPsOfKey(key, "during resync")
+				if err != nil {
+					glog.Warningf("failed to unassign ips of %s: %v", key, err)
 					// return to retry unassign ip in the next resync loop
 					return
 				}
-				// for tapp and sts pod, we need to clean its node attr and uid
-				if err := p.reserveIP(key, key, "unassign ip during resync"); err != nil {
-					glog.Error(err)
+				if unassigned > 0 {
+					// for tapp and sts pod, we need to clean its node attr and uid
+					if err := p.reserveIP(key, key, "unassign ip during resync"); err != nil {
+						glog.Error(err)
+					}
 				}
 			}
 			releasePolicy := constant.ReleasePolicy(obj.fip.Policy)
@@ -139,6 +138,31 @@ func (p *FloatingIPPlugin) resyncAllocatedIPs(meta *resyncMeta) {
 			}
 		}()
 	}
+}
+
+// unassignIPsOfKey asks the cloud provider to unassign every ip of the key that is still assigned to a node,
+// it returns the number of such ips
+func (p *FloatingIPPlugin) unassignIPsOfKey(key, when string) (int, error) {
+	ipInfos, err := p.ipam.ByKeyAndIPRanges(key, nil)
+	if err != nil {
+		return 0, fmt.Errorf("query floating ip by key %s: %v", key, err)
+	}
+	assigned := 0
+	for _, ipInfo := range ipInfos {
+		if ipInfo == nil || ipInfo.NodeName == "" {
+			continue
+		}
+		assigned++
+		ipStr := ipInfo.IPInfo.IP.IP.String()
+		glog.Infof("UnAssignIP nodeName %s, ip %s, key %s %s", ipInfo.NodeName, ipStr, key, when)
+		if err := p.cloudProviderUnAssignIP(&rpc.UnAssignIPRequest{
+			NodeName:  ipInfo.NodeName,
+			IPAddress: ipStr,
+		}); err != nil {
+			return assigned, fmt.Errorf("UnAssignIP nodeName %s, ip %s: %v", ipInfo.NodeName, ipStr, err)
+		}
+	}
+	return assigned, nil
 }
 
 func (p *FloatingIPPlugin) podRunning(podName, namespace, podUid string) (bool, string) {
